@@ -99,8 +99,10 @@ PROSE_SPECIAL = OrderedDict((
     ("percent-twice", "between 5% and 95%"),
     ("braces", "fills the {name} and {0} placeholders"),
     ("backslash", "a path such as C:\\data\\new"),
-    ("tab", "columns id\tlabel"),
 ))
+# (not drawn: a tab inside the prose.  The unchanged tree expands it to spaces when it reads a docstring - the interface read
+# from the truth is then not the one that was written - and, in the summary, differently per kind, so that a history with
+# alternating truth kinds keeps rewriting the class: reported as a finding, kept out of the generator)
 
 
 def apply_prose_special(ir, spec):
@@ -112,7 +114,8 @@ def apply_prose_special(ir, spec):
     def add(doc):
         doc = doc or ""
         return (doc[:-1] + ", " + phrase + ".") if doc.endswith(".") else (doc + " " + phrase)
-    names = list(ir["params"])
+    # (not the parameter whose description is one token of the formatting width: a longer text there is re-wrapped)
+    names = [n for n in ir["params"] if not n.startswith("wide_")]
     if spec.get("where") == "summary" or not names:
         ir["doc"] = add(ir["doc"])
     else:
@@ -413,7 +416,7 @@ def gen_scenario(rng, via="api", runs=2, allow_known=True):
             files[k] = pool[0]
             if k + "#2" in targets:
                 files[k + "#2"] = pool[1]
-    return {"truth": truth, "given": sorted(given), "names": names, "targets": targets, "ir_seed": rng.randint(0, 10 ** 9),
+    scn = {"truth": truth, "given": sorted(given), "names": names, "targets": targets, "ir_seed": rng.randint(0, 10 ** 9),
             "files": files,
             # the order of the options on the command line (the files of one kind keep their relative order: the first
             # file of the truth's kind is the truth)
@@ -428,6 +431,87 @@ def gen_scenario(rng, via="api", runs=2, allow_known=True):
             "receiver": "posonly" if rng.random() < 0.5 else None,
             # a function truth written with positional-or-keyword parameters: def f(a=1) rather than def f(*, a=1)
             "style": "positional" if rng.random() < 0.5 else None}
+    return draw_extras(scn)
+
+
+# texts of a file that exists and holds ZERO statements (pre-state "empty"): touched, blank lines only, comments only
+ZERO_TEXTS = ["", "\n", "\n\n\n", "   \n", "# placeholder\n", "# Copyright (c) the authors\n# SPDX-License-Identifier: MIT\n\n",
+              "#!/usr/bin/env python\n# -*- coding: utf-8 -*-\n", "# no final newline"]
+P_INNER_SAME_NAMED_ABSENT, P_INNER_SAME_NAMED, P_SPECIAL_SUR, P_ZERO_TEXT, P_PROSE_SPECIAL, P_ALTERNATE = 0.4, 0.15, 0.25, 0.6, 0.25, 0.3
+
+
+def alternate_eligible(scn):
+    """a history in which the KIND named as truth changes between runs is drawn for scenarios whose interface converts
+    between all kinds without loss and bytewise stably: no return entry (judged modulo returns everywhere), no parameter
+    line at the formatting widths (the docstring of a hand-written class truth with such a line is re-wrapped once when the
+    class becomes a target), no file named twice, no separate truth-edit phase"""
+    return (not scn.get("with_returns") and not scn.get("wide") and not scn.get("truth_edit") and len(scn["given"]) >= 2
+            and not any(t.get("alias_truth") or t["pre"] == "hardlink" for t in scn["targets"].values()))
+
+
+def draw_alternate(xr, scn, length=None, p_third=0.3):
+    """truth kinds of the runs that follow the regular ones: two of the given kinds in turn (the first differs from the
+    regular truth when it can), sometimes a third in between"""
+    given = list(scn["given"])
+    k1 = xr.choice([k for k in given if k != scn["truth"]] or given)
+    k2 = xr.choice([k for k in given if k != k1])
+    seq = [k1, k2] * 3
+    if len(given) > 2 and xr.random() < p_third:
+        seq.insert(2, next(k for k in given if k not in (k1, k2)))
+    return seq[:length or xr.choice([3, 4, 4, 5])]
+
+
+def draw_extras(scn):
+    """the strata added later, drawn from a generator of their own (seeded by the scenario's ir_seed) so that everything
+    drawn before stays, for a seed, what it was:
+    per target: a definition of the target's simple name BELOW the top level (pre-states with a text; a top-level target);
+    sibling definitions whose docstrings hold tabs inside lines, `%`, braces, backslashes; for the pre-state "empty" a file
+    that holds blank lines or comments only;
+    per scenario: prose with such characters; a history whose later runs name another KIND as truth"""
+    import random
+    xr = random.Random(scn["ir_seed"] * 31 + 17)
+    for tk in sorted(scn["targets"]):
+        t = scn["targets"][tk]
+        k = kind_of(tk)
+        r1, r2, r3 = xr.random(), xr.random(), xr.random()
+        form, idxs, zero = xr.choice(INNER_SAME_NAMED), sorted(xr.sample(range(len(SPECIAL_HELPERS)), xr.choice([1, 1, 2]))), xr.choice(ZERO_TEXTS)
+        if t["pre"] in ("absent", "stale", "agreeing", "stale-tail") and "." not in scn["names"][k] \
+                and r1 < (P_INNER_SAME_NAMED_ABSENT if t["pre"] == "absent" else P_INNER_SAME_NAMED):
+            t["inner_same_named"] = form
+        if t["pre"] in ("absent", "stale", "agreeing", "stale-tail") and r2 < P_SPECIAL_SUR:
+            t["special_sur"] = idxs
+        if t["pre"] == "empty" and r3 < P_ZERO_TEXT:
+            t["zero_text"] = zero
+    r1, r2 = xr.random(), xr.random()
+    spec = {"token": xr.choice(list(PROSE_SPECIAL)), "where": "param" if xr.random() < 0.8 else "summary", "index": xr.randint(0, 3)}
+    alt = draw_alternate(xr, scn)
+    if r1 < P_PROSE_SPECIAL:
+        scn["prose_special"] = spec
+    if r2 < P_ALTERNATE and alternate_eligible(scn):
+        scn["alternate"] = alt
+    return scn
+
+
+def gen_history_scenario(rng, via="api", runs=2):
+    """a scenario of the history stratum: every kind given at the top level of its file, the interface in the bytewise
+    stable family (see alternate_eligible), more often than not prose with a special character, and after the regular
+    runs four or five more in which the kind named as truth alternates: nobody edits a file, so none may change"""
+    import random
+    while True:
+        scn = gen_scenario(rng, via=via, runs=runs, allow_known=False)
+        scn.update(with_returns=False, wide=None, truth_edit=False)
+        scn.pop("alternate", None)
+        if len(scn["given"]) == 3 and alternate_eligible(scn):
+            break
+    xr = random.Random(scn["ir_seed"] * 37 + 5)
+    scn["alternate"] = draw_alternate(xr, scn, length=xr.choice([4, 5]), p_third=0.6)
+    if xr.random() < 0.9:
+        scn["prose_special"] = {"token": xr.choice(list(PROSE_SPECIAL)), "where": "param" if xr.random() < 0.85 else "summary",
+                                "index": xr.randint(0, 3)}
+    else:
+        scn.pop("prose_special", None)
+    scn["history_stratum"] = True
+    return scn
 
 
 # the shapes of recorded findings that the regular draws reach only rarely
@@ -461,7 +545,7 @@ def build_project(scn, root):
     """writes the files; returns dict(paths, gold_ir, expected defs)"""
     import random
     rng = random.Random(scn["ir_seed"])
-    ir = safe_ir(rng, with_returns=bool(scn.get("with_returns")), wide=scn.get("wide"))
+    ir = apply_prose_special(safe_ir(rng, with_returns=bool(scn.get("with_returns")), wide=scn.get("wide")), scn.get("prose_special"))
     stale = mutate_ir(rng, ir)
     paths = {k: os.path.join(root, file_of(k, scn)) for k in KINDS}
     for tk in scn["targets"]:
@@ -495,8 +579,18 @@ def build_project(scn, root):
             os.link(paths[truth], paths[tk])
             continue
         if pre == "empty":
-            text = ""
+            text = t.get("zero_text") or ""
         else:
+            if t.get("special_sur"):
+                # sibling definitions whose docstrings hold tabs inside lines, `%`, braces, backslashes (placed by a generator
+                # of their own)
+                xr = random.Random(t["sur_seed"] + 1)
+                for j in t["special_sur"]:
+                    sur.insert(xr.randint(0, len(sur)), SPECIAL_HELPERS[j])
+            if t.get("inner_same_named"):
+                # the target's simple name occurs below the top level of the module, before or after the place of the definition
+                xr = random.Random(t["sur_seed"] + 2)
+                sur.insert(xr.randint(0, len(sur)), inner_same_named(k, short, t["inner_same_named"]))
             if pre == "absent":
                 dsrc = None
             elif pre == "stale":
@@ -553,9 +647,13 @@ def write_truth(scn, ir, path, ftype, keep_mtime=False):
         return None
 
 
-def snapshot(root):
+def snapshot(root, dirs=False):
+    """{relative path: bytes}; with dirs=True also {relative path of every directory + "/": None}"""
     out = {}
-    for dp, _, fs in os.walk(root):
+    for dp, ds, fs in os.walk(root):
+        if dirs:
+            for d in ds:
+                out[os.path.relpath(os.path.join(dp, d), root) + "/"] = None
         for fn in fs:
             p = os.path.join(dp, fn)
             with open(p, "rb") as f:
@@ -860,7 +958,26 @@ def run_scenario(scn, record=True):
                 run = (run_main if scn["via"] == "main" else run_api)(scn, paths, rec, home=root)
                 calls = rec.calls if rec is not None else None
             edit = {"gold_ir": gold2, "run": run, "before": before, "after": snapshot(root), "calls": calls}
-        return {"scn": scn, "edit": edit, "proj": {k: v for k, v in proj.items() if k != "paths"}, "paths": {k: os.path.basename(v) for k, v in paths.items()},
+        alt = None
+        if scn.get("alternate"):
+            # the history goes on: nobody edits a file, only the KIND named as truth changes from run to run (the truth of
+            # such a run is the first file of that kind; every other file named is a target, the former truth's file included)
+            alt = []
+            for kind in scn["alternate"]:
+                scn_k = dict(scn, truth=kind)
+                before = snapshot(root)
+                if scn["via"] == "cli":
+                    r = run_cli(cli_argv(scn_k, paths), extra_env={"HOME": root})
+                    run = {"exception": None if r["rc"] == 0 else ("exit-%d" % r["rc"]), "stdout": r["stdout"], "stderr": r["stderr"][-600:],
+                           "result": None}
+                    calls = None
+                else:
+                    rec = Recorder() if record else None
+                    run = (run_main if scn["via"] == "main" else run_api)(scn_k, paths, rec, home=root)
+                    calls = rec.calls if rec is not None else None
+                alt.append({"truth": kind, "run": run, "before": before, "after": snapshot(root), "calls": calls})
+        return {"scn": scn, "edit": edit, "alt": alt, "proj": {k: v for k, v in proj.items() if k != "paths"},
+                "paths": {k: os.path.basename(v) for k, v in paths.items()},
                 "root": root, "snaps": snaps, "runs": runs, "calls": rec_calls}
     finally:
         shutil.rmtree(root, ignore_errors=True)
